@@ -1690,8 +1690,8 @@ def dims_harness(c, mr, dims, mr_valgrind=None):
             k_ = "C14:step_with_N_1_and_N_0:" + integ
             if integ in ("whfast", "saba") and ("reb_particles_transform_inertial_to_jacobi" in rep_ or "reb_integrator_whfast_init" in rep_):
                 k_ = "F23:whfast-step-with-N-0-writes-outside-p_jh"
-            elif integ in ("mercurius", "trace") and "Invalid read" in rep_ and ("reb_integrator_mercurius_jump_step" in rep_ or "reb_integrator_trace_jump_step" in rep_
-                                                                                   or "_inertial_to_dh" in rep_):
+            elif integ in ("mercurius", "trace") and ("Invalid read" in rep_ or "null pointer" in rep_ or "SEGV" in rep_) and any(
+                    w_ in rep_ for w_ in ("jump_step", "_inertial_to_dh", "reb_integrator_trace_part2", "reb_integrator_mercurius_part2")):
                 k_ = "F25:hybrid-step-after-remove_all-dereferences-null-particles"
             c.violation(k_, "%s: step after the last particle was removed (N=0): %s" % (integ, rep_[:300].replace("\n", " | ")),
                         {"integrator": integ, "harness_lines": L, "report": rep_})
